@@ -1036,6 +1036,33 @@ func runC30(r *simkit.R) {
 		}
 		isSess := func(t *c30Tok) bool { return t.kind != c30Bearer }
 		isBear := func(t *c30Tok) bool { return t.kind == c30Bearer }
+		retarget := func(q *c30Req, t *c30Tok) {
+			cn, vb := t.cnr, t.verb
+			if t.kind == c30V2 {
+				cn, vb = t.links[0].ctxs[0].cnr, t.links[0].ctxs[0].verbs[0]
+			}
+			if cn >= 0 {
+				q.cnr = cn
+			}
+			if t.kind == c30Bearer {
+				return
+			}
+			for _, kq := range c30ReqKinds {
+				if kq.verb == vb {
+					kq.cnr, kq.obj, kq.signer = q.cnr, q.obj, q.signer
+					if kq.name == "search" {
+						kq.obj = -1
+					} else if kq.obj < 0 && kq.name != "put" {
+						kq.obj = 0
+					}
+					*q = kq
+					break
+				}
+			}
+			if len(t.objs) > 0 && q.obj >= 0 {
+				q.obj = t.objs[0]
+			}
+		}
 		mode := r.Weighted(38, 30, 24, 8) // new, reuse, twin of the last honoured, none
 		k := pickKind()
 		switch mode {
@@ -1057,31 +1084,13 @@ func runC30(r *simkit.R) {
 			}
 			// mostly the holder uses the token for what it was made for
 			if t := firstTok(sess, bear); t != nil && r.Bool(65) {
-				cn, vb := t.cnr, t.verb
-				if t.kind == c30V2 {
-					cn, vb = t.links[0].ctxs[0].cnr, t.links[0].ctxs[0].verbs[0]
-				}
-				if cn >= 0 {
-					q.cnr = cn
-				}
-				if t.kind != c30Bearer {
-					for _, kq := range c30ReqKinds {
-						if kq.verb == vb {
-							kq.cnr, kq.obj, kq.signer = q.cnr, q.obj, q.signer
-							if kq.name == "search" {
-								kq.obj = -1
-							}
-							q = kq
-							break
-						}
-					}
-					if len(t.objs) > 0 && q.obj >= 0 {
-						q.obj = t.objs[0]
-					}
-				}
+				retarget(&q, t)
 			}
 		case 2:
 			if lh := lastHonoured[k]; lh != nil {
+				if r.Bool(80) {
+					retarget(&q, lh)
+				}
 				t := w.twin(lh, len(pool), q)
 				pool = append(pool, t)
 				if k == c30Bearer {
